@@ -424,4 +424,177 @@ theorem storedCompat_needed :
   · decide
   · exact ⟨120, by decide, by decide, by decide⟩
 
+/-! ## The stored position across connections (restart-in-window schedules)
+
+  The theorems above take the stored position at face value. The following ones
+  follow the target's bookkeeping itself (`Tgt`, `step`: `SetRunId`,
+  `ResetStartPoint`, what `Send` stores; both the checkpoint on the target and
+  the in-memory position) together with what the target's data really is, over
+  ANY sequence of connections, interrupted replays, restarts and source changes.
+  `Truthful` replaces `StoredCompat`: it is an invariant of the (repaired) code,
+  not an assumption on the state. -/
+
+/-- **a log is only ever continued on top of what the target really holds.** If
+    the stored position is truthful, a log delivery starts exactly where the
+    target's data ends, that data is a prefix of the current history, and the
+    bytes delivered are the current history's from there on. -/
+theorem continues_what_the_target_holds (w : World) (s : Source) (t : Tgt) (c : Cache) (d : CData)
+    (hs : SourceWF s) (hc : CacheWF c) (hok : CacheOK w c d) (hag : Agree w s)
+    (htr : Truthful w s t c) (start : Int) (byte : Int → UInt8)
+    (h : (run w s t.stored c d).delivery = .stream start byte) :
+    start = t.stored.offset ∧
+    ∃ tid, t.truth = .at tid start ∧ AgreeBelow w tid s.id1 start ∧
+      ∀ n, start ≤ n → byte n = w.hist s.id1 n := by
+  obtain ⟨e1, h0, _, hin, hb, hsw⟩ := stream_facts hs hc hok hag h
+  obtain ⟨tid, ht, hd⟩ := htr hin h0
+  subst e1
+  refine ⟨rfl, tid, ht, ?_, hb⟩
+  rcases hd with d1 | ⟨_, ln1, ag, hcn⟩
+  · exact d1
+  · have := hsw ln1 hcn
+    exact fun n h0 hn => (ag n h0 hn).trans (hag n h0 (by omega))
+
+/-- **the invariant is kept by every connection**, however it ends: the log
+    replayed up to any offset `e`, a snapshot replay completed or interrupted
+    (`done`), in resume and in in-memory mode, for any number `k` of bytes the
+    cache went on storing. In particular after FULLRESYNC and after an
+    interrupted snapshot replay no position is left that could be continued. -/
+theorem truthful_preserved (resume : Bool) (w : World) (s : Source) (t : Tgt) (c : Cache) (d : CData)
+    (hs : SourceWF s) (hc : CacheWF c) (hok : CacheOK w c d) (hag : Agree w s)
+    (htr : Truthful w s t c) (done : Bool) (e k : Int) :
+    Truthful w s (step resume w s t c d done e) (cacheAfter (run w s t.stored c d).mt k) := by
+  have hq1 : qId ≠ s.id1 := fun x => hs.id1_nq x.symm
+  have hq2 : qId ≠ s.id2 := fun x => hs.id2_nq x.symm
+  unfold step
+  cases hdel : (run w s t.stored c d).delivery with
+  | none =>
+    exfalso
+    rcases run_spec (w := w) (sp := t.stored) (d := d) hs hc with hF | hK | hC
+    · rw [hF.delivery] at hdel; cases hdel
+    · rcases hK.read with ⟨_, h, _⟩ | ⟨_, _, _, _, h⟩ <;> rw [h] at hdel <;> cases hdel
+    · rw [hC.delivery] at hdel; cases hdel
+  | snapshot tok left size =>
+    simp only [Tgt.afterSend, hdel]
+    cases done
+    · intro hin _
+      simp only [Bool.false_eq_true, if_false, SP.initial] at hin
+      rcases hin with x | x
+      · exact absurd x hq1
+      · exact absurd x hq2
+    · intro _ _
+      exact ⟨s.id1, rfl, Or.inl (fun _ _ _ => rfl)⟩
+  | stream start byte =>
+    obtain ⟨e1, h0, hfull, hin, _, hsw⟩ := stream_facts hs hc hok hag hdel
+    simp only [Tgt.afterSend, hdel]
+    by_cases he : e > start
+    · rw [if_pos he]
+      intro _ _
+      exact ⟨s.id1, rfl, Or.inl (fun _ _ _ => rfl)⟩
+    · rw [if_neg he]
+      obtain ⟨tid, ht, hd⟩ := htr hin h0
+      have hd1 : AgreeBelow w tid s.id1 t.stored.offset := by
+        rcases hd with d1 | ⟨_, ln1, ag, hcn⟩
+        · exact d1
+        · have := hsw ln1 hcn
+          exact fun n h0 hn => (ag n h0 hn).trans (hag n h0 (by omega))
+      simp only [Tgt.afterMeta, hfull, Bool.false_eq_true, if_false]
+      intro _ _
+      cases resume
+      · exact ⟨tid, ht, Or.inl hd1⟩
+      · exact ⟨tid, ht, Or.inl hd1⟩
+
+/-- **and by a change of the source** — a failover that exposes the current id as
+    the previous one, or an unrelated new history: provided the new current id is
+    new (no position and no cache is labelled with it yet). What belongs to the
+    new history is then decided by the source's answer to PSYNC, not by a label. -/
+theorem truthful_source_change (w : World) (s s' : Source) (t : Tgt) (c : Cache)
+    (htr : Truthful w s t c) (h1 : s'.id1 ≠ t.stored.runId) (h2 : s'.id1 ≠ c.runId)
+    (h3 : s'.id2 = t.stored.runId → t.stored.runId = s.id1) :
+    Truthful w s' t c := by
+  intro hin h0
+  rcases hin with x | x
+  · exact absurd x.symm h1
+  · have hL := h3 x.symm
+    obtain ⟨tid, ht, hd⟩ := htr (Or.inl hL) h0
+    rcases hd with d1 | ⟨_, ln1, _, _⟩
+    · refine ⟨tid, ht, Or.inr ⟨x, fun y => h1 y.symm, ?_, fun y => h2 y.symm⟩⟩
+      rw [← x, hL]; exact d1
+    · exact absurd hL ln1
+
+/-- the source may change anything but its ids (backlog window, offsets) -/
+theorem truthful_same_ids (w : World) (s s' : Source) (t : Tgt) (c : Cache)
+    (htr : Truthful w s t c) (h1 : s'.id1 = s.id1) (h2 : s'.id2 = s.id2) : Truthful w s' t c := by
+  unfold Truthful at htr ⊢
+  rw [h1, h2]; exact htr
+
+/-- a target that holds nothing, with nothing stored, is truthful -/
+theorem truthful_initially (w : World) (s : Source) (hs : SourceWF s) (c : Cache) :
+    Truthful w s ⟨SP.initial, .none⟩ c := by
+  intro hin _
+  rcases hin with x | x
+  · exact absurd x.symm hs.id1_nq
+  · exact absurd x.symm hs.id2_nq
+
+/-! ### what the three repairs are needed for (behaviour before 07a0622, 23cb23d, 58997e8) -/
+
+/-- before the repair a FULLRESYNC kept the stored position: `SetRunId` re-keyed it
+    to the new id with the old offset (on the target) or left it (in memory), and
+    an interrupted snapshot replay left it there -/
+def stepOld (resume : Bool) (w : World) (s : Source) (t : Tgt) (c : Cache) (d : CData) (done : Bool) (e : Int) : Tgt :=
+  let r := run w s t.stored c d
+  let t1 : Tgt := { t with stored := if resume then ⟨r.mt.runId, t.stored.offset⟩ else t.stored }
+  match r.delivery with
+  | .snapshot _ left _ => if done then ⟨⟨r.mt.runId, left⟩, .at s.id1 left⟩ else ⟨t1.stored, .dirty⟩
+  | _ => t1.afterSend resume s r done e
+
+/-- N1/N3: target at [2]:150 (beyond the switch offset 100), cache of [2] up to 160:
+    PSYNC [2] 161 is refused, FULLRESYNC at 200; the snapshot replay is interrupted.
+    Unrepaired, the position [1]:150 (resp. [2]:150 in memory) survives on a
+    half-replaced data set; repaired, nothing is left to continue from. -/
+theorem reset_on_full_needed :
+    Truthful w0 s0 ⟨⟨[2], 150⟩, .at [2] 150⟩ cB ∧
+    ¬ Truthful w0 s0 (stepOld true w0 s0 ⟨⟨[2], 150⟩, .at [2] 150⟩ cB (dOf [2] 100) false 0)
+        (cacheAfter (run w0 s0 ⟨[2], 150⟩ cB (dOf [2] 100)).mt 60) ∧
+    ¬ Truthful w0 s0 (stepOld false w0 s0 ⟨⟨[2], 150⟩, .at [2] 150⟩ cB (dOf [2] 100) false 0)
+        (cacheAfter (run w0 s0 ⟨[2], 150⟩ cB (dOf [2] 100)).mt 60) ∧
+    (step true w0 s0 ⟨⟨[2], 150⟩, .at [2] 150⟩ cB (dOf [2] 100) false 0).stored = SP.initial ∧
+    (step false w0 s0 ⟨⟨[2], 150⟩, .at [2] 150⟩ cB (dOf [2] 100) false 0).stored = SP.initial := by
+  refine ⟨?_, ?_, ?_, by decide, by decide⟩
+  · intro _ _
+    exact ⟨[2], rfl, Or.inr ⟨rfl, by decide, fun _ _ _ => rfl, by decide⟩⟩
+  · intro h
+    have hst : (stepOld true w0 s0 ⟨⟨[2], 150⟩, .at [2] 150⟩ cB (dOf [2] 100) false 0) = ⟨⟨[1], 150⟩, .dirty⟩ := by
+      simp only [stepOld]
+      rfl
+    rw [hst] at h
+    obtain ⟨tid, ht, _⟩ := h (Or.inl rfl) (by decide)
+    cases ht
+  · intro h
+    have hst : (stepOld false w0 s0 ⟨⟨[2], 150⟩, .at [2] 150⟩ cB (dOf [2] 100) false 0) = ⟨⟨[2], 150⟩, .dirty⟩ := by
+      simp only [stepOld]
+      rfl
+    rw [hst] at h
+    obtain ⟨tid, ht, _⟩ := h (Or.inr rfl) (by decide)
+    cases ht
+
+/-- N2: relabelling a truthful position of the previous id with the current id
+    (what `newOutput` did at every start) breaks the invariant when the position
+    lies beyond the switch offset — and the source then grants what it would have
+    refused: PSYNC [1] 151 against PSYNC [2] 151. -/
+theorem no_relabel_at_start_needed :
+    Truthful w0 s0 ⟨⟨[2], 150⟩, .at [2] 150⟩ ⟨.memory, [], none, none⟩ ∧
+    ¬ Truthful w0 s0 ⟨⟨[1], 150⟩, .at [2] 150⟩ ⟨.memory, [], none, none⟩ ∧
+    (run w0 s0 ⟨[1], 150⟩ ⟨.memory, [], none, none⟩ CData.empty).reader = .aof 150 ∧
+    (run w0 s0 ⟨[2], 150⟩ ⟨.memory, [], none, none⟩ CData.empty).mt.ps.full = true := by
+  refine ⟨?_, ?_, by decide, by decide⟩
+  · intro _ _
+    exact ⟨[2], rfl, Or.inr ⟨rfl, by decide, fun _ _ _ => rfl, by decide⟩⟩
+  · intro h
+    obtain ⟨tid, ht, hd⟩ := h (Or.inl rfl) (by decide)
+    cases ht
+    rcases hd with d1 | ⟨x, _⟩
+    · have := d1 120 (by decide) (by decide)
+      revert this; decide
+    · revert x; decide
+
 end GunYu.Props.C06
